@@ -129,6 +129,15 @@ theorem canon_share_msg : Canon (encVec (encOpt (encPair encBool encU128))) (dec
 
 theorem canon_vecvec_u128 : Canon (encVec (encVec encU128)) (decVec (decVec decU128)) := canon_vec (canon_vec canon_u128)
 
+/-- the two directions together: acceptance is exactly "is the canonical encoding followed by the rest". -/
+theorem accept_iff {α} {e : α → Bytes} {d : Dec α} (hr : RT e d) (hc : Canon e d) (bs : Bytes) (a : α) (r : Bytes) :
+    d bs = .ok (a, r) ↔ bs = e a ++ r :=
+  ⟨hc bs a r, fun h => h ▸ hr a r⟩
+
+theorem masked_accept_iff (bs : Bytes) (l : List (Option Bool)) (hl : l.length < 2 ^ 64) (r : Bytes) :
+    decVec (decOpt decBool) bs = .ok (l, r) ↔ bs = encVec (encOpt encBool) l ++ r :=
+  ⟨canon_vec (canon_opt canon_bool) bs l r, fun h => h ▸ rt_masked_msg l hl r⟩
+
 /-- non-vacuity and the rejected cases: a bool byte 2 and an Option tag 2 have no reading (bincode's own behaviour). -/
 example : decBool ([2] : Bytes) = .error .badBool := rfl
 example : decOpt decBool ([2, 1] : Bytes) = .error .badTag := rfl
